@@ -338,6 +338,15 @@ func (ps *pathState) check(label string, cond value, harness string) {
 			// the path condition itself is unsatisfiable
 			panic(pathEnd{"infeasible"})
 		}
+		if n := ps.w.e.Cfg.CrossCheckEvery; n > 0 && ps.w.assertUnsat%n == 1%n {
+			// second opinion on "holds" from the other z3 build
+			r2, _ := ps.w.solver.fallback(neg, false)
+			ps.w.crossChecked++
+			if r2 == Sat {
+				ps.w.crossDisagree++
+				ps.w.noteInconclusive(fmt.Sprintf("assertion %q: the two solvers disagree (unsat vs sat)", label))
+			}
+		}
 		return
 	case Unknown:
 		ps.w.assertUnknown++
